@@ -202,8 +202,8 @@ def run(run, tier, seed):
     res = explore.prod(lambda: gen_cases(tier), evaluate, seed=seed,
                        bound={'histories': list(HISTORIES), 'filters': [f[0] for f in FILTERS]})
     run.add_part('queries', res)
-    res = explore.prod(lambda: iter([{'messages': 3000 if tier == 'quick' else 70000}]), eval_long_history, workers=1,
-                       bound={'messages': 3000 if tier == 'quick' else 70000})
+    res = explore.prod(lambda: iter([{'messages': 70000 if tier == 'quick' else 300000}]), eval_long_history, workers=1,
+                       bound={'messages': 70000 if tier == 'quick' else 300000})
     run.add_part('long_history', res)
     run.rule = ('histories {0,1,12,universe messages} x current filter x selected connection x matcher x cap; each query '
                 'issued three times around a different query; non-trivial = a cap >= 1 on a non-empty history')
